@@ -395,7 +395,7 @@ class InteractionsEncoder:
             else:
                 terms.append([v*t for v,s in zip(values,starts) for t in terms[d][(s-1):]])
 
-            starts = list(accumulate(starts[:1]+starts[-1:]+starts[1:-1]))
+            starts = list(accumulate([1]+[len(terms[d])-s+1 for s in starts[:-1]]))
 
         return terms
 
